@@ -63,6 +63,8 @@ def fmt_case(c):
         lines.append("ctor %s" % c["ctor"])
     if c.get("gap") is not None:
         lines.append("gap %d" % c["gap"])
+    if c.get("hintlie"):
+        lines.append("hintlie %d" % c["hintlie"])
     if c.get("c0") is not None:
         lines.append("c0 %d" % c["c0"])
     if c.get("multi"):
@@ -108,8 +110,13 @@ def pick_env(r, kinds=KINDS_ALL, mode="wrapping", adaptors=False, owning_only=Fa
     hint = "exact"
     owning = None
     start = 0
+    end = None
     if kind == "range":
         start = r.weighted([(0, 3), (5, 2), (1000, 1)])
+        if r.chance(1, 12):
+            # crossed bounds: an empty range
+            start = r.choice([3, 42, 1000])
+            end = r.choice([0, 1, start - 1])
     if kind == "iter":
         hint = r.weighted([("exact", 3), ("inexact", 1), ("none", 1)])
         owning = r.chance(1, 2) or owning_only
@@ -118,7 +125,7 @@ def pick_env(r, kinds=KINDS_ALL, mode="wrapping", adaptors=False, owning_only=Fa
             owning = False
     if kind == "slice" and adaptors and r.chance(2, 3):
         adaptor = r.choice(["cloned", "copied"])
-    return mk_env(kind, ln, adaptor=adaptor, start=start, hint=hint, owning=owning, mode=mode)
+    return mk_env(kind, ln, adaptor=adaptor, start=start, end=end, hint=hint, owning=owning, mode=mode)
 
 
 def gen_prog(r, env, nops, allow, has_buf_state=None):
@@ -289,6 +296,13 @@ def gen_boundary(r, cid, mode):
             e = min(UMAX, s + r.choice([0, 1, 2, 3, 7]))
         env = mk_env("range", 0, start=s, end=e, mode=mode)
         ln = env["len"]
+        if r.chance(1, 4):
+            # several skip_to_end calls around pulls that report the end, on a range of any size
+            p = []
+            for _ in range(r.weighted([(3, 2), (4, 3), (6, 2)])):
+                p.append(r.weighted([("skip", 4), ("next:idval", 3), ("chunk:2:9", 2), ("chunk:%d:1" % max(1, min(ln, UMAX)), 1), ("more", 2), ("len", 1)]))
+            fin = r.weighted([("drop", 1), ("seq:%d" % r.choice([0, 2]), 1)])
+            return dict(id=cid, env=env, progs=[p], final=fin, seed=r.below(1 << 30), gen="solo", sched=None)
     elif what == "known":
         kind = r.choice(["slice", "vec", "array"])
         ln = r.choice([0, 1, 2, 3, 5, 8])
